@@ -40,6 +40,16 @@ impl TypeChecker {
             return ResolvedType::Unknown;
         }
 
+        // `?` returns early with Err(..): the enclosing function has to return a Result itself.
+        if self.current_return_error_type.is_none() {
+            if let Some(ret) = self.symbols.current_return_type() {
+                if !ret.is_result() && !matches!(ret, ResolvedType::Unknown) {
+                    self.errors
+                        .push(errors::try_outside_result_function(&ret.to_string(), span));
+                }
+            }
+        }
+
         if let (Some(inner_err), Some(expected_err)) = (inner_ty.result_err_type(), &self.current_return_error_type) {
             if !self.types_compatible(inner_err, expected_err) {
                 self.errors.push(errors::incompatible_error_type(
